@@ -785,6 +785,11 @@ func runC09(ctx *Ctx) error {
 		c09Check(ctx, pl, idx, cs, nil)
 		idx++
 	}
+	// ---- later requests over real connections
+	for _, cc := range c09ConnCases() {
+		c09ConnReuse(ctx, idx, cc)
+		idx++
+	}
 	// ---- unit level
 	if err := c09UnitRun(ctx, &idx); err != nil {
 		return err
